@@ -189,6 +189,82 @@ pub fn replay_bddvec(args: &Args) {
     println!("{}", json!({"vectors": t.vectors, "steps": t.steps, "configs": configs, "mismatches": t.mismatches, "bad": t.bad}));
 }
 
+// ---------------------------------------------------------------- smoothing (spec/GenSmooth.tla)
+
+/// the first `n` levels of a (smoothed) diagram as a tree with complement edges pushed down;
+/// below level n - or at a constant met earlier - the function that hangs there
+fn unfold(p: BddPtr, n: usize, nv: usize) -> Value {
+    if n == 0 {
+        return json!([-1, (0..(1usize << nv)).filter(|a| bdd_eval(p, *a)).collect::<Vec<_>>()]);
+    }
+    match p {
+        BddPtr::PtrTrue | BddPtr::PtrFalse => json!([-2, if p.is_true() { 1 } else { 0 }]), // a path that ends early
+        BddPtr::Reg(node) => json!([node.var.value_usize(), unfold(node.low, n - 1, nv), unfold(node.high, n - 1, nv)]),
+        BddPtr::Compl(node) => json!([node.var.value_usize(), unfold(node.low.neg(), n - 1, nv), unfold(node.high.neg(), n - 1, nv)]),
+    }
+}
+
+fn run_smooth<'a, T: IteTable<'a, BddPtr<'a>> + Default>(b: &'a RobddBuilder<'a, T>, cfgname: &str, order: &[usize], nv: usize, vecs: &[&Value], t: &mut Tally) {
+    let mut memo = HashMap::new();
+    for v in vecs {
+        let f = bdd_build(b, tt_of(&v["f"]), 0, order, nv, &mut memo);
+        let n = v["n"].as_u64().unwrap() as usize;
+        t.steps += 1;
+        let (ok, got) = match guarded(|| b.smooth(f, n)) {
+            Ok(p) => {
+                let got = unfold(p, n, nv);
+                (got == v["tree"] && bdd_tt(p, nv) == tt_of(&v["f"]), got)
+            }
+            Err(m) => (false, json!(m)),
+        };
+        if !ok {
+            t.mismatches += 1;
+            if t.bad.len() < 10 {
+                t.bad.push(json!({"cfg": cfgname, "vector": v, "got_tree": got}));
+            }
+        }
+    }
+}
+
+pub fn replay_smoothvec(args: &Args) {
+    let text = std::fs::read_to_string(args.str("in", "")).expect("read vectors");
+    let nv = args.num("nv", 3) as usize;
+    let vecs: Vec<Value> = text.lines().map(|l| serde_json::from_str(l).unwrap()).collect();
+    let mut t = Tally { vectors: vecs.len(), steps: 0, mismatches: 0, bad: vec![] };
+    // group by the order the vectors were generated for
+    let mut orders: Vec<Vec<usize>> = vec![];
+    for v in &vecs {
+        let o: Vec<usize> = v["order"].as_array().unwrap().iter().map(|x| x.as_u64().unwrap() as usize).collect();
+        if !orders.contains(&o) {
+            orders.push(o);
+        }
+    }
+    let mut configs = 0;
+    for order in &orders {
+        let mine: Vec<&Value> = vecs
+            .iter()
+            .filter(|v| v["order"].as_array().unwrap().iter().map(|x| x.as_u64().unwrap() as usize).collect::<Vec<_>>() == *order)
+            .collect();
+        for (cache, tcap, ccap) in [("all", 0usize, None), ("lru", 2usize, Some(1usize))] {
+            rsdd::verif::set_table_capacity(tcap);
+            rsdd::verif::set_lru_capacity(ccap);
+            configs += 1;
+            let ord = VarOrder::new(&order.iter().map(|v| VarLabel::new_usize(*v)).collect::<Vec<_>>());
+            let name = format!("{cache}/tcap{tcap}");
+            if cache == "all" {
+                let b = RobddBuilder::<AllIteTable<BddPtr>>::new(ord);
+                run_smooth(&b, &name, order, nv, &mine, &mut t);
+            } else {
+                let b = RobddBuilder::<LruIteTable<BddPtr>>::new(ord);
+                run_smooth(&b, &name, order, nv, &mine, &mut t);
+            }
+        }
+    }
+    rsdd::verif::set_table_capacity(0);
+    rsdd::verif::set_lru_capacity(None);
+    println!("{}", json!({"vectors": t.vectors, "steps": t.steps, "configs": configs, "mismatches": t.mismatches, "bad": t.bad}));
+}
+
 // ---------------------------------------------------------------- standard triples (Ite::new)
 
 pub fn replay_itevec(args: &Args) {
